@@ -20,7 +20,7 @@
 #define VERIF_N 2
 #endif
 static char *g_base; static int g_ret, g_calls, g_bad_args;
-#define VAL(s, side, i) ((float)(1000 * (s) + 100 * (side) + (i) + 1) / 1024.0f * (((s) + (side)) & 1 ? -1.f : 1.f))     /* exactly representable, distinct, both signs, some beyond +-1 so that the 16-bit path has to saturate */
+#define VAL(s, side, i) ((float)(1000 * (s) + 1100 * (side) + (i) + 1) / 1024.0f * (((s) + (side)) & 1 ? -1.f : 1.f))     /* exactly representable, distinct, both signs, some beyond +-1 so that the 16-bit path has to saturate */
 int opus_decoder_get_size(int channels) { (void)channels; return DEC_SZ; }
 int opus_decoder_init(OpusDecoder *st, opus_int32 Fs, int channels) { (void)st; (void)Fs; (void)channels; return OPUS_OK; }
 int opus_decoder_ctl(OpusDecoder *st, int request, ...)
